@@ -421,7 +421,7 @@ void execute_mkl_fft3d_fwd(fft_plan_t *plan) {
     }
     const int ny = plan->dims[1];
     const int nx = plan->dims[0];
-#pragma omp parallel for
+#pragma omp parallel for private(work)
     for (int ix = 0; ix < nx; ix++) {
         // if (plan->inplace) {
         for (int iy = 0; iy < ny; iy++) {
@@ -458,7 +458,7 @@ void execute_mkl_fft3d_bwd(fft_plan_t *plan) {
     const int ny = plan->dims[1];
     const int nx = plan->dims[0];
     DftiComputeBackward(plan->xhandle, plan->in);
-#pragma omp parallel for
+#pragma omp parallel for private(work)
     for (int ix = 0; ix < nx; ix++) {
         work = (double *)plan->in;
         work = work + ix * ny * nzt_k;
